@@ -224,6 +224,21 @@ def run(ctx):
                     r = ExprBuilder(cb).local(0)
                     if r[0] == "field" and r[2] == "1" or (show(r).endswith(".1")):
                         good = True
+        if not good:
+            # loop form: for (p, sw) in self.par.iter_mut().zip(self.gv_switch.iter()) { if *sw { *p = .. } }
+            from ..expr import stores as _stores
+            sts_ = [s_ for s_ in _stores(cv, eb) if "self.par" in show(s_[3])]
+            okl = bool(sts_)
+            for bb_, i_, st_, tgt_, root_, chain_, val_ in sts_:
+                ts = show(tgt_)
+                if not ("Zip" in ts and "zip(self.par, self.gv_switch)" in ts.replace("std::iter::Iterator::", "") and ts.endswith(".0.0")):
+                    okl = False
+                    continue
+                item = ts[:-len(".0")]
+                gsl = [(g_[0], show(g_[1])) for g_ in paths.guards(cv, bb_, eb)]
+                if not any(k_ == "true" and s__ == item + ".1" for k_, s__ in gsl):
+                    okl = False
+            good = okl
         if good:
             ctx.ok("C12-R4", "conv_gv rescales only frames whose switch is true (filter on the zipped switch)", cv.loc())
         else:
@@ -240,19 +255,30 @@ def run(ctx):
             if not (e[0] == "bin" and e[1] == "Div" and e[2][0] == "call" and e[2][1].endswith("Iterator::sum")):
                 return None
             m = e[2][2][0]
-            if not (m[0] == "call" and m[1].endswith("Iterator::map")):
-                return None
-            f, mc = m[2][0], m[2][1]
-            if not (f[0] == "call" and f[1].endswith("Iterator::filter") and show(f[2][0]) == "std::iter::Iterator::zip(self.par, self.gv_switch)"):
+            # one or several `.map(..)` over the switch-filtered zip: the closures are composed
+            maps = []
+            while m[0] == "call" and m[1].endswith("Iterator::map"):
+                maps.append(m[2][1])
+                m = m[2][0]
+            f = m
+            if not maps or not (f[0] == "call" and f[1].endswith("Iterator::filter") and show(f[2][0]) == "std::iter::Iterator::zip(self.par, self.gv_switch)"):
                 return None
             fb = p.bodies.get(f[2][1][1][len("closure:"):]) if f[2][1][0] == "agg" else None
-            mb = p.bodies.get(mc[1][len("closure:"):]) if mc[0] == "agg" else None
-            if fb is None or mb is None:
+            if fb is None:
                 return None
             fr = ExprBuilder(fb).local(0)
             if not (fr[0] == "field" and fr[2] == "1" and fr[1][0] == "arg"):
                 return None
-            return resolve_upvars(p, mb, ExprBuilder(mb).local(0)), show(e[3])
+            from ..loops import rewrite
+            v = ("arg", 2, None)
+            for mc in reversed(maps):
+                mb = p.bodies.get(mc[1][len("closure:"):]) if mc[0] == "agg" else None
+                if mb is None:
+                    return None
+                r_ = resolve_upvars(p, mb, ExprBuilder(mb).local(0))
+                # the closure's own parameter (arg 2; calc_gv itself has only `self`) <- the item so far
+                v = rewrite(r_, lambda n, v=v: v if (n[0] == "arg" and n[1] == 2 and not str(n[2] or "").startswith("{closure")) else None)
+            return v, show(e[3])
         okst = False
         why = show(r)[:200]
         if r[0] == "agg" and len(r[2]) == 2:
